@@ -128,8 +128,8 @@ def shape_defines(name):
 
 
 def codec_unit(uid, entry, shape, clause, functions, mutants, cls="full-domain", extra_def=None, bound=None, unwind=80, tier="quick", skip=True, timeout=300):
-    if shape == "SSS":
-        tier = "thorough"       # about 30 opcodes of this shape, one body each: 50-150 s
+    if shape == "SSS" or (shape in ("S", "SSI", "SES") and entry != "h_dec") or (shape == "S" and entry == "h_dec"):
+        tier = "thorough"       # one body per opcode of the shape: SSS (about 30 opcodes) 50-150 s; S, SSI, SES 20-55 s on a loaded machine
     u = {"id": uid, "props": ["C09", "C10"] if entry == "h_enc" else ["C09"], "tier": tier, "class": cls, "clause": clause,
          "src": ["bytecode.c", "asm.c"], "link": ["wrap.c"], "link_keep": {"wrap.c": WRAP},
          "harness": ["asm_codec.c"], "entry": entry, "mode": "plain", "nanbox": False, "functions": functions,
@@ -302,8 +302,7 @@ M_HANDLER_LEAK = M("tables-not-released-before-propagating", "        if (NULL !
 
 
 def struct_unit(uid, secs, what, mutants, extra_def=None, bound_extra="", failing=None, tier="quick", timeout=900, unwind=17, fixed=None, extra=None):
-    if uid not in ("asm.asm1.header", "asm.asm1.header.below-max", "asm.asm1.bytecode"):
-        tier = "thorough"       # 60-170 s
+    tier = "thorough"           # 20-50 s (header, bytecode, depth-guard) to 60-260 s (the others) on a loaded machine
     u = {"id": uid, "props": ["C10"], "tier": tier, "class": "bounded",
          "bound": "lists of at most 2 elements, element tuples of at most 5 values (values arbitrary); one nesting level (the nested call is its contract)" + bound_extra,
          "clause": ASM1_COMMON % what,
